@@ -153,6 +153,8 @@ func ruleDispEnabled(w *World, r *Report) {
 				})
 				if set {
 					r.ok("DISP-ENABLED", k2, w.PosOf(in), "asks about a field set from the candidate's key beforehand")
+				} else if n, f, _, okf := fieldOf(fa); okf && typeKey(n) == "core.Rule" && f == "Id" && ruleIdSetAtCreation(w) {
+					r.exempt("DISP-ENABLED", k2, w.PosOf(in), "asks about Rule.Id, which every rule carries from the moment it is created or cached (premise checked: FindCachedRules stores the key into Rule.Id before it publishes the rule): equal to the key, not decided further")
 				} else {
 					r.violation("DISP-ENABLED", k2, w.PosOf(in), "RuleEnabled is asked about a field of the candidate rule that has not (on every path) been set from the key under which the rule was found: for a freshly compiled rule the field is empty, no `disabled` flag is found under the empty id, and a disabled rule fires")
 				}
@@ -243,4 +245,28 @@ func init() {
 		Explain: "Static gate / pairing rules for the rule lifecycle: every Location entry refuses on the disabled edge before touching state (GATE-E), dispatch appends a rule only behind RuleEnabled == true (DISP-ENABLED), re-adding or removing an id drops the cached parse (CACHE-INV), and RemRule removes the disabled flag (REM-FLAG). Does not decide the state machine over histories, reload survival or inherited disablement.",
 		Rules:   []ruleFn{ruleGateE, ruleDispEnabled, ruleCacheInv, ruleRemFlag, ruleDeleteWithProvenance, ruleIdxRem},
 	})
+}
+
+// ruleIdSetAtCreation: every State implementation's FindCachedRules stores into Rule.Id before it puts the rule
+// into the cache.
+func ruleIdSetAtCreation(w *World) bool {
+	a := newLocAnchors(w)
+	n := 0
+	for nm := range a.stateImp {
+		fn := w.TryMethod(typeRel(nm), nm.Obj().Name(), "FindCachedRules")
+		if fn == nil {
+			return false
+		}
+		ok := false
+		allInstrs(fn, func(in ssa.Instruction) {
+			if _, is := storesToField(in, "core.Rule", "Id"); is {
+				ok = true
+			}
+		})
+		if !ok {
+			return false
+		}
+		n++
+	}
+	return n > 0
 }
